@@ -9,6 +9,10 @@ import wire
 from props import c02, c09, c11, c12, c20
 from vlib import Case, lang_lines
 
+# every case of this module is a direct operator / builtin / codec application whose size the oracle computes:
+# a "capacity overflow" panic is never excused here
+MEMORY_EXCLUSION_IN_UNCONSTRAINED = False
+
 RULE = ("no-panic oracle over four in-process engines: (1) every operator x operand-kind pair x boundary values through the real VM (op/un), (2) every builtin that is safe to call "
         "in-process x arity 0..4 x kinds x boundary values (builtin), (3) format strings incl. malformed ones, (4) generated programs plus deep recursion (unbounded, zero-argument), "
         "wide functions (255 parameters/locals), wrong arities, absurd shift/repeat/precision arguments (eval); every case runs under catch_unwind with a watchdog; "
@@ -51,8 +55,9 @@ def model_skip(c):
 
 
 def spec_override(c):
-    # this property demands one thing of every case: no panic, abort or hang
-    return "nopanic"
+    # this property demands one thing of every case: no panic, abort or hang — except where the oracle itself
+    # computed a request for more memory than the machine has (verdict `any`: the property's exclusion)
+    return "any" if c.spec == "any" and c.line.startswith("eval ") else "nopanic"
 
 
 DEEP = [
